@@ -1182,7 +1182,7 @@ pub fn run_sweeps(ctx: &Ctx, tabs: &Tables, thorough: bool, light: bool) -> Tall
     let prop = ctx.prop;
     let mut total = Tally::default();
     // 1. tiny world
-    total = total.merge(sweep_tiny(ctx, if light { 3 } else { 4 }, 0, &[vec![]], &TINY_OFFS, "tiny_world"));
+    total = total.merge(sweep_tiny(ctx, if light { 3 } else if thorough { 6 } else { 5 }, 0, &[vec![]], if thorough { &[-3, -1, 0, 1, 4] } else { &TINY_OFFS }, "tiny_world"));
     // 5. leap zones: tiny world shifted behind a first leap record, second record placed among the transitions
     {
         let base = DAY28 + 1000;
